@@ -43,6 +43,11 @@ class Canary:
         n = self._next()
         return f"c{n}z" + "".join(self.rng.choice("abcdefghkmnpqrstuvwxy") for _ in range(4))
 
+    def path_string(self) -> str:
+        """A path-parameter value: half of them carry a character that is reserved in URLs (it must arrive percent-encoded
+        INSIDE its slot).  Never a bare dot segment: '.' and '..' are removed by URL normalisation whatever the encoding."""
+        return self.token() + self.rng.choice(["", "", "", "", "", "/s", "?q", "#h", "%25", "%", " sp", "é", ";s", "+p", "&a=b", "=e", ",c", ".p", "~t", "'a", ":c", "@a", "/../x"])
+
     def integer(self) -> int:
         return 100_000 + 7 * self._next()
 
@@ -484,6 +489,8 @@ def gen(schema: dict, doc: dict, c: Canary, depth: int = 0, url_safe: bool = Fal
             out_l.append(J)
         return out_l
     if k == "string":
+        if url_safe == "path":
+            return c.path_string()
         return c.token() if url_safe else c.string()
     if k == "integer":
         return c.integer()
